@@ -95,6 +95,8 @@ var c14Layouts = []struct {
 	{"root:my crs [v4]", nil, nil},
 	// the tree is in real/, the command is pointed at a symbolic link to it
 	{"root reached through a symbolic link", nil, nil},
+	// -d names a directory below the root: the root is what is updated
+	{"-d at rules/", nil, nil}, {"-d at plugins/deep/nested/", nil, nil}, {"-d at regex-assembly/", nil, nil},
 	{"symlink to a file outside the targets, first in rules/", nil, core.Tree{"LICENSE": "Apache\n", "rules/AAA-LICENSE": core.LinkPrefix + "../LICENSE"}},
 	{"crs-setup.conf linked to the example file", nil, core.Tree{"crs-setup.conf": core.LinkPrefix + "crs-setup.conf.example"}},
 	{"dangling symlink and link to a directory", nil, core.Tree{"rules/AAA-dangling": core.LinkPrefix + "nowhere", "AAA-plugins": core.LinkPrefix + "plugins", "plugins/AAA-up": core.LinkPrefix + ".."}},
@@ -305,6 +307,9 @@ func C14(r *core.Run) {
 				build("4.0.0", "2024").Materialise(sb)
 				if dArg != sb {
 					os.Symlink("real", dArg)
+				}
+				if sub, ok := strings.CutPrefix(lay.Name, "-d at "); ok {
+					dArg = filepath.Join(sb, sub)
 				}
 				var names []string
 				ok := true
